@@ -58,7 +58,7 @@ func IsPermission(err error) bool { return real.IsPermission(err) }
 func Exit(code int) { simrt.S.Exit(code) }
 
 func Stat(name string) (FileInfo, error)        { return simrt.S.FS.GoStat(name) }
-func Lstat(name string) (FileInfo, error)       { return simrt.S.FS.GoStat(name) }
+func Lstat(name string) (FileInfo, error)       { return simrt.S.FS.GoLstat(name) }
 func Mkdir(name string, perm FileMode) error    { return simrt.S.FS.GoMkdir(name) }
 func MkdirAll(path string, perm FileMode) error { return simrt.S.FS.GoMkdirAll(path) }
 func Remove(name string) error                  { return simrt.S.FS.GoRemove(name) }
